@@ -59,6 +59,17 @@ claimed.update({
          "All import-kind assignments over 14 graph shapes with <= 2 (quick) / 3 (thorough) library modules, with same-named private items in every module; diagnostics iff faulty/cyclic, behaviour of fault-free graphs against the reference semantics over 3 repetitions on both backends.",
          "Library modules carry an empty main like the repository's own multi-module scripts; whether a library needs a main is not judged."),
 })
+claimed.update({
+ "C05": ("exploration", "totality fuzzing of lexer, parser and analyzer: random/hostile bytes, token soup, every prefix and every single-token edit of valid programs, depth generators, module variants; native go fuzzing in the thorough tier",
+         "Validity predicate 'returns without panic, fatal error or hang' over generated texts up to 64 KiB and nesting up to 1000, offered as entry module and as the text a host returns for an imported module (10 module variants incl. cycles, host errors, import chains/diamonds). Exhaustive only for the prefixes and single-token edits of the corpus programs.",
+         "Trusted: sandbox crash/hang detection (hangs are re-run alone with a doubled budget); in-process lexing/parsing runs under recover + watchdog. Analysis runs in the worker because a Go stack overflow cannot be recovered."),
+ "C19": ("translation_validation", "round-trip and differential testing of both printers and the optimizer on generated programs, a table of printer-sensitive forms, generated literals, analysed trees built directly, and the shipped scripts",
+         "Each accepted program is printed (parser AST and analysed AST), re-parsed, re-analysed and re-run on both backends; output, outcome, trigger registrations and compiled annotations must be identical and the second print must equal the first; the optimizer's output is run against the unoptimised program. Sampled programs only.",
+         "Trusted: the sandbox worker's print/optimise operations call the repository's String() methods and optimizer directly. Programs whose original crashes the VM are judged on the interpreter alone (C02's subject)."),
+ "C20": ("translation_validation", "metamorphic testing of the transformer: generated programs of the property's class and the shipped examples x seeds x passes; every variant must be accepted and behave like the original on the VM",
+         "Per (program, seed, passes): every variant TransformPasses returns is printed, analysed and run; acceptance, output, outcome, trigger registrations and compiled annotations are compared with the original. Sampled triples only.",
+         "Trusted: generator restrictions implementing the property's side conditions (pure operands, small non-negative multiplication operands, small literals). Programs whose untransformed analysed print does not round-trip (C19) are discarded and counted."),
+})
 pending = {}
 import os
 def main():
